@@ -21,10 +21,11 @@ fn base(mode: Mode, split: &[usize], ps: PsKind) -> Case {
     Case { mode, idempotent: false, split: split.to_vec(), ps, faults: Vec::new(), consumer: Consumer::Eager }
 }
 
-const PS4: [PsKind; 4] = [PsKind::OneByte, PsKind::Zero, PsKind::Ff, PsKind::Long];
+/// paging-state alphabets of the quick tier (thorough adds `mixed`); the rotation below walks this list
+const PSQ: [PsKind; 6] = [PsKind::OneByte, PsKind::Zero, PsKind::Ff, PsKind::Long, PsKind::Empty1, PsKind::Empty2];
 
 fn gen_split(nmax: usize, thorough: bool) -> Vec<Case> {
-    let kinds: Vec<PsKind> = if thorough { PsKind::ALL.to_vec() } else { PS4.to_vec() };
+    let kinds: Vec<PsKind> = if thorough { PsKind::ALL.to_vec() } else { PSQ.to_vec() };
     let mut v = Vec::new();
     for n in 0..=nmax {
         for s in pg::splits(n) {
@@ -32,6 +33,9 @@ fn gen_split(nmax: usize, thorough: bool) -> Vec<Case> {
                 for mode in Mode::ALL {
                     if s.len() == 1 && *ps != kinds[0] {
                         continue; // a single page never shows a paging state
+                    }
+                    if s.len() == 2 && *ps == PsKind::Empty2 {
+                        continue; // identical to one-byte
                     }
                     v.push(base(mode, &s, *ps));
                 }
@@ -74,10 +78,11 @@ fn gen_fault(nmax1: usize, nmax2: Option<usize>) -> Vec<Case> {
             }
             for faults in lists {
                 for idem in idem_values(&faults, false) {
+                    // the paging-state alphabet rotates over the (fault list, idempotence) pairs, the same for both pagers:
+                    // every alphabet x every fault kind x every pager occurs
+                    let ps = PSQ[i % PSQ.len()];
+                    i += 1;
                     for mode in Mode::ALL {
-                        // the paging-state alphabet rotates over the cases (every alphabet x every fault kind occurs)
-                        let ps = PS4[i % 4];
-                        i += 1;
                         let c = Case { idempotent: idem, faults: faults.clone(), ..base(mode, &s, ps) };
                         if pg::admissible(&c) {
                             v.push(c);
@@ -121,9 +126,9 @@ fn gen_consumer(nmax: usize, nmax_fault: Option<usize>, with_reset: bool) -> Vec
                 continue;
             }
             for cons in consumers_for(&s) {
+                let ps = PSQ[i % PSQ.len()];
+                i += 1;
                 for mode in Mode::ALL {
-                    let ps = PS4[i % 4];
-                    i += 1;
                     v.push(Case { consumer: cons.clone(), ..base(mode, &s, ps) });
                 }
             }
@@ -142,8 +147,8 @@ fn gen_consumer(nmax: usize, nmax_fault: Option<usize>, with_reset: bool) -> Vec
                                 continue;
                             }
                             for idem in idem_values(&[(p, f)], false) {
-                                let mode = Mode::ALL[i % 2];
-                                let ps = PS4[(i / 2) % 4];
+                                let mode = if f == Fault::Unprepared { Mode::Prepared } else { Mode::ALL[i % 2] };
+                                let ps = PSQ[(i / 2) % PSQ.len()];
                                 i += 1;
                                 let c = Case { idempotent: idem, faults: vec![(p, f)], consumer: cons.clone(), ..base(mode, &s, ps) };
                                 if pg::admissible(&c) {
